@@ -56,8 +56,11 @@ def long_chain_instances(tier, seed):
         out.append(Instance(f"long|heavy-light|{k}", mol(tok("N"), sto("[>]", [heavy, light], [], "[<]", g0(t)), tok("F")), family="long-chain"))
     t = round(12.5 * mass(light), 3)
     out.append(Instance("long|endgroups", mol(sto("[]", [light, heavy], ["[>]N", "[<]O"], "[]", g0(t))), family="long-chain"))
-    out.append(Instance("long|sym", mol(tok("N"), sto("[$]", ["[$]CC[$]", "[$]CC(Br)[$]"], [], "[$]", g0(t)), tok("F")), family="long-chain"))
-    out.append(Instance("long|two-blocks", mol(tok("[H]"), sto("[>]", [light, heavy], [], "[<]", g0(t)), sto("[>]", ["[<]CO[>]", "[<]CS[>]"], [], "[<]", g0(round(11.5 * mass("[<]CO[>]"), 3))), tok("[H]")), family="long-chain"))
+    # a long block followed by a short one (the cost of one execution grows with the square of the chain length)
+    out.append(Instance("long|two-blocks", mol(tok("[H]"), sto("[>]", [light, heavy], [], "[<]", g0(t)), sto("[>]", ["[<]CO[>]", "[<]CS[>]"], [], "[<]", g0(round(2.5 * mass("[<]CO[>]"), 3))), tok("[H]")), family="long-chain"))
+    if tier == "thorough":
+        out.append(Instance("long|sym", mol(tok("N"), sto("[$]", ["[$]CC[$]", "[$]CC(Br)[$]"], [], "[$]", g0(t)), tok("F")), family="long-chain"))
+        out.append(Instance("long|two-long-blocks", mol(tok("[H]"), sto("[>]", [light, heavy], [], "[<]", g0(t)), sto("[>]", ["[<]CO[>]", "[<]CS[>]"], [], "[<]", g0(round(11.5 * mass("[<]CO[>]"), 3))), tok("[H]")), family="long-chain"))
     return out
 
 
